@@ -1,5 +1,186 @@
-"""LIN — bounds of accesses to the untrusted slice (filled in next)."""
+"""A5 — every access to the untrusted file slice in scan_deflate.rs / idat_parse.rs is in bounds (LIN)."""
+import re
+from .. import flow, lin
+from ..aff import aff_sym, aff_const, aff_add, aff_str, TOP
+from ..facts import op_place, callee_def
+from ..common import strip_generics
+
+P = "preflate_rs::"
+FILES = ("src/scan_deflate.rs", "src/idat_parse.rs")
+
+
+def summaries(F, name, b, L):
+    """Named summary facts for one function: list of (location, form >= 0, text, obligation-ok, obligation-detail)."""
+    out = []
+    if name.endswith("scan_deflate::split_into_deflate_streams"):
+        ns = [(bb, t) for bb, t in b.calls() if strip_generics(callee_def(t)) == P + "scan_deflate::next_signature"]
+        idx, prv = b.locals_named("index"), b.locals_named("prev_index")
+        if len(ns) == 1 and len(idx) == 1 and len(prv) == 1:
+            head = ns[0][0]
+            out1 = aff_sym("out1@bb%d" % head)
+            I = aff_sym("index@head%d" % head)
+            Pv = aff_sym("prev_index@head%d" % head)
+            ln = L.len_sym(ns[0][1]["args"][0], head)
+            ok, detail = _next_signature_summary(F)
+            # (a) next_signature leaves  old index <= index <= len - 2
+            out.append((("after", head), aff_add(aff_add(ln, out1, -1), aff_const(2), -1), "next_signature: index <= len-2", ok, detail))
+            out.append((("after", head), aff_add(out1, I, -1), "next_signature: index does not decrease", ok, detail))
+            # prev_index <= index at the loop head (inductive, from the AFF cursor analysis)
+            ok2, detail2 = _prev_le_index(F, b, head)
+            out.append((("after", head), aff_add(I, Pv, -1), "loop invariant prev_index <= index", ok2, detail2))
+        # (b) cursor position after skip_gzip_header lies within the slice the cursor was built over
+        for bb, t in b.calls():
+            if strip_generics(callee_def(t)) == "std::io::Cursor::position":
+                cur = flow.origin(b, t["args"][0])
+                news = [tt for _, tt in cur.calls if strip_generics(callee_def(tt)) == "std::io::Cursor::new"]
+                if len(news) == 1:
+                    # the cursor wraps src[index..]: position <= len(src) - index
+                    sl = flow.origin(b, news[0]["args"][0])
+                    idxc = [tt for _, tt in sl.calls if re.search(r"(Index::index|::index)$", strip_generics(callee_def(tt)))]
+                    if len(idxc) == 1:
+                        ln = L.len_sym(idxc[0]["args"][0], bb)
+                        ro = flow.origin(b, idxc[0]["args"][1], through=("use",))
+                        starts = [r["ops"][0] for _, _, r in ro.exprs if r["k"] == "agg" and r.get("adt") == "std::ops::RangeFrom"]
+                        if len(starts) == 1 and ns:
+                            okc, dc = _cursor_read_only(F)
+                            start = aff_sym("out1@bb%d" % ns[0][0])   # index right after next_signature
+                            pos = aff_sym("call@bb%d" % bb)
+                            out.append((("after", bb), aff_add(aff_add(ln, start, -1), pos, -1), "Cursor::position() <= length of the slice it reads", okc, dc))
+    if name.endswith("idat_parse::recreate_idat"):
+        pass
+    return out
+
+
+def _next_signature_summary(F):
+    b = F.bodies.get(P + "scan_deflate::next_signature")
+    if b is None:
+        return False, "next_signature not found"
+    # the only store through `index` is `*index = i`, i being the loop variable of `*index .. src.len()-1`
+    stores = []
+    for bb in b.normal_blocks():
+        for s in b.stmts(bb):
+            if s["k"] == "assign" and s["p"]["p"] == ["*"] and b.local_name(s["p"]["l"]) == "index":
+                stores.append(flow.describe_rvalue(b, s["r"], names=True))
+    rng = None
+    for bb in b.normal_blocks():
+        for s in b.stmts(bb):
+            if s["k"] == "assign" and s["r"]["k"] == "agg" and s["r"].get("adt") == "std::ops::Range":
+                rng = [flow.describe(b, x, names=True) for x in s["r"]["ops"]]
+    ok = stores == ["var(i)"] and rng is not None and rng[0] in ("var(index)", "deref(var(index))") and re.match(r"^Sub\(len\(var\(src\)\), K1\)(\.0)?$", rng[1]) is not None
+    return ok, "stores through index: %s; loop range %s" % (stores, rng)
+
+
+def _prev_le_index(F, b, head):
+    from ..aff import Aff, aff_eq
+    from . import scan
+    idx, prv = b.locals_named("index")[0], b.locals_named("prev_index")[0]
+    A = Aff(F, b, None, tracked=(idx, prv))
+    init = {idx: aff_sym("I"), prv: aff_sym("Pv")}
+    back, out_env, inn = A.run_loop(head, init, (idx, prv))
+    bad = []
+    for pb, env in back.items():
+        d = A.diff(env, idx, prv)
+        if d is TOP:
+            bad.append("unknown at bb%d" % pb)
+            continue
+        # d must be 0, or (I - Pv) + (out1 - I) + c with c >= 0
+        r = aff_add(aff_add(d, aff_add(aff_sym("I"), aff_sym("Pv"), -1), -1), aff_add(aff_sym("out1@bb%d" % head), aff_sym("I"), -1), -1)
+        if aff_eq(d, aff_const(0)) or (set(r) <= {""} and r.get("", 0) >= 0):
+            continue
+        bad.append("index - prev_index = %s at bb%d" % (aff_str(d), pb))
+    env0 = A.step_block(0, {})
+    base = aff_eq(env0.get(idx, TOP), aff_const(0)) and aff_eq(env0.get(prv, TOP), aff_const(0))
+    return (not bad and base and bool(back)), "inductive over %d back edge(s): %s" % (len(back), bad or "index - prev_index is 0 or grows")
+
+
+def _cursor_read_only(F):
+    b = F.bodies.get(P + "scan_deflate::skip_gzip_header")
+    if b is None:
+        return False, "skip_gzip_header not found"
+    bad = []
+    scope = [b] + [F.bodies[n] for n in F.bodies if n.startswith(P + "scan_deflate::") and F.bodies[n].j.get("generic") and n != b.name and "skip" in n]
+    for fb in scope:
+        for bb, t in fb.calls():
+            tr = t["callee"].get("trait")
+            m = t["callee"].get("def", "").split("::")[-1]
+            if tr in ("std::io::Seek",) or m in ("set_position", "seek", "consume"):
+                bad.append(m)
+    return not bad, "skip_gzip_header only reads from the cursor (no seek/set_position): %s" % (bad or "ok")
 
 
 def a5(ctx, rep):
-    return
+    F = ctx.lib
+    nsites = 0
+    per_fn = {}
+    for name, b in sorted(F.bodies.items()):
+        if b.file not in FILES:
+            continue
+        try:
+            L, sites, facts, inn, out = lin.sites_and_facts(F, b)
+        except Exception as e:
+            rep.add("A5", "UNRECOGNISED-IDIOM:" + name.replace(P, ""), False, "%s:%s" % (b.file, b.line), "LIN evaluation failed: %s: %s" % (type(e).__name__, e))
+            continue
+        summ = summaries(F, name, b, L)
+        for loc, form, text, ok, detail in summ:
+            rep.add("A5", "summary:%s:%s" % (name.split("::")[-1], text), ok, "%s:%s" % (b.file, b.line), detail)
+            if ok:
+                facts.append((loc, form, "summary: " + text))
+        short = name.replace(P, "")
+        counts = {}
+        for s in sites:
+            nsites += 1
+            per_fn[short] = per_fn.get(short, 0) + 1
+            k = "%s:%s" % (s.kind, s.what)
+            counts[k] = counts.get(k, 0) + 1
+            key = "%s|%s%s" % (short, k, "" if counts[k] == 1 else "#%d" % counts[k])
+            here = [f for f in facts if lin.holds_at(b, f[0], s.bb)]
+            unproved = []
+            used = []
+            for what, ob in s.obligations:
+                if ob is TOP:
+                    unproved.append("%s (cannot normalise)" % what)
+                    continue
+                pf = lin.entailed(ob, here)
+                if pf is None:
+                    unproved.append("%s, i.e. %s >= 0" % (what, aff_str(ob)))
+                else:
+                    used.extend(f[2] for f in pf)
+            if not unproved:
+                rep.add("A5", "in-bounds:" + key, True, s.where, "covered by %s" % (sorted(set(used)) or "constants / non-negativity"))
+                continue
+            rv = REVIEWED.get((short, s.kind, s.what))
+            if rv is not None:
+                ok, detail = rv[1](F, b) if rv[1] else (True, "")
+                rep.add("A5", "reviewed:" + key, ok, s.where, "%s — %s" % (rv[0], detail))
+                continue
+            rep.add("A5", "unguarded:" + key, False, s.where,
+                    "no dominating guard establishes %s (facts in scope: %s)" % ("; ".join(unproved), [f[2] for f in here][:6]))
+    rep.floor("A5", "untrusted-slice-access-sites", nsites, 25)
+    rep.stats["lin"] = {"sites": nsites, "per_function": per_fn}
+
+
+def _sum_check(F, b):
+    """recreate_idat: the chunk sizes sum to deflate_stream.len() + 6 (else Err) and `contents` is header ++ stream ++ adler32."""
+    from .guard import _leads_only_to_err
+    ok_guard = False
+    for sb in sorted(b.normal_blocks()):
+        st = b.term(sb)
+        if st["k"] == "switch":
+            d = flow.describe(b, st["d"], names=True)
+            if re.match(r"^Ne\(sum\(.*chunk_sizes.*\), Add\(Add\(len\(var\(deflate_stream\)\), K2\)(\.0)?, K4\)(\.0)?\)$", d) or re.match(r"^Ne\(.*sum\(.*\).*, Add\(Add\(len\(var\(deflate_stream\)\), K2\)", d):
+                f = [x for v, x in st["targets"] if v == 0]
+                loops = [bb for bb, t in b.calls() if strip_generics(callee_def(t)).endswith("Iterator::next")]
+                if f and loops and all(b.edge_dominates(sb, f[0], x) for x in loops) and _leads_only_to_err(F, b, st["otherwise"]):
+                    ok_guard = True
+    # contents = zlib_header.to_vec() ; extend(deflate_stream) ; extend(adler32 bytes)
+    ext = [flow.describe(b, t["args"][1], names=True) for bb, t in b.calls() if strip_generics(callee_def(t)).endswith("Extend::extend")]
+    ok_build = len(ext) == 2 and ext[0] == "var(deflate_stream)" and "to_be_bytes" in ext[1]
+    idx = [flow.describe_rvalue(b, d[3], names=True) for l in b.locals_named("index") for d in b.defs(l) if d[2] == "assign"]
+    ok_idx = sorted(idx) == sorted(["K0", "Add(var(index), var(chunk_size))"]) or sorted(idx) == sorted(["K0", "Add(var(index), var(chunk_size)).0"])
+    return (ok_guard and ok_build and ok_idx), "sum check dominates the loop and fails into Err: %s; contents = header ++ stream ++ adler32: %s (%s); index advances by chunk_size: %s" % (ok_guard, ok_build, ext, idx)
+
+
+REVIEWED = {
+    ("idat_parse::recreate_idat", "range", "var(contents)[var(index)..Add(var(index), var(chunk_size)).0]"):
+        ("the chunk sizes sum to contents.len() (sum check), so the running index never passes the end", _sum_check),
+}
